@@ -9,7 +9,8 @@
      inlines  (atoms, each followed by a join  sp | nl (soft break) | none)
               w(word)  lex(backslash escape or character reference)  code(span)
               em(ch, body)  strong(ch, body)  link(body, tail)  img(alt, tail)  auto(url)  br(kind)
-              bodies of em/strong/link/img are sequences of SIMPLE atoms (w, lex, code).
+              bodies of em/strong are sequences of SIMPLE atoms (w, lex, code); link text and image
+              descriptions may also contain hard breaks.
 
    Syntactic VARIANTS are attributes of the construct they belong to: emphasis character (`*`/`_`),
    bullet (`-`/`+`/`*`), ordered delimiter (`.`/`)`), fence character and length, indentation 0-3 of
@@ -121,13 +122,17 @@ InlLineCount(q) ==
        IN IF Len(q) = 1 THEN own
           ELSE own + InlLineCount(Tail(q)) - (IF q[1].j = "nl" THEN 0 ELSE 1)
 
+(* an inline sequence that can be closed: hard breaks are inner atoms *)
+InlClosed(q) == q # <<>> /\ q[1].k # "br" /\ q[Len(q)].k # "br"
+
 (* the documented unsupported cases never occur *)
 RECURSIVE NoExcludedInl(_, _)
 NoExcludedInl(q, inEmph) ==
   /\ \A i \in DOMAIN q :
        /\ IsEmph(q[i]) => ~inEmph
        /\ q[i].body # <<>> => NoExcludedInl(q[i].body, inEmph \/ IsEmph(q[i]))
-       /\ q[i].k \in EmphKinds \cup {"link", "img"} => \A x \in DOMAIN q[i].body : IsSimple(q[i].body[x])
+       /\ q[i].k \in EmphKinds => \A x \in DOMAIN q[i].body : IsSimple(q[i].body[x])
+       /\ q[i].k \in {"link", "img"} => (InlClosed(q[i].body) /\ \A x \in DOMAIN q[i].body : IsSimple(q[i].body[x]) \/ q[i].body[x].k = "br")
   /\ \A i \in 1..(Len(q) - 1) : ~(IsEmph(q[i]) /\ IsEmph(q[i + 1]) /\ q[i].j = "none")
 
 (* Delimiter runs must be able to open / close (CommonMark flanking rules), otherwise an intended
@@ -145,8 +150,6 @@ FlankOK(q) ==
          N == IF i = Len(q) \/ q[i].j # "none" THEN "s" ELSE FirstClass(q[i + 1])
      IN OpenOK(q[i].c, P, FirstClass(b[1])) /\ CloseOK(q[i].c, LastClass(b[Len(b)]), N)
 
-(* an inline sequence that can be closed: hard breaks are inner atoms *)
-InlClosed(q) == q # <<>> /\ q[1].k # "br" /\ q[Len(q)].k # "br"
 
 -----------------------------------------------------------------------------
 (* blocks: one record shape *)
